@@ -40,6 +40,7 @@ const (
 	fidF1         = "C08-F1"     // entrance view with a block commit quorum but without the header: machine stops / keeps a stale view
 	fidF2         = "C08-F2"     // catch-up handling never left after a catch-up start; step left over when catching up after a live round
 	fidF3         = "C08-F3"     // catch-up start leaves the previous-finalization values empty
+	fidF4         = "C08-F4"     // second stale strategy result deadlocks consensus manager and state machine
 	fidRestartFin = "C02-F1"     // second restart during commit wait re-enters a finalized height
 	fidResign     = "C02-RESIGN" // restart in a round with a recorded vote: strategy consulted and signer called again
 )
@@ -658,6 +659,23 @@ func (s *sim) opAnswer(a int) {
 		ans.hash = s.candFor(ce.re.H, ce.re.R, k-1).hash
 	}
 	cur := c.inc == w.inc && c.epoch == s.curEpoch()
+	if e := s.model.epochs[c.epoch]; e != nil && c.inc == w.inc && !ans.notReady {
+		// C08-F4: a result for a round the machine has left stays unread in that round's
+		// 1-buffered channel; a second one blocks the consensus manager forever.
+		unread := &e.unreadPrevote
+		if c.kind == scDecide {
+			unread = &e.unreadDecide
+		}
+		left := !cur || s.model.expectEntrance != nil || s.pendingEnt != nil
+		if left && *unread && vk.Excluded(fidF4) {
+			s.st.Excluded(fidF4)
+			s.skip("excluded:" + fidF4)
+			return
+		}
+		if left {
+			*unread = true
+		}
+	}
 	w.mu.Lock()
 	c.done = true
 	c.ans = ans
